@@ -47,6 +47,11 @@ def scenarios(draw):
                 r, _t = S.read_from_chain(src, "r%d" % k, g["chr"], twin_strand, t["exons"], delta=4, trunc_p=0.3,
                                           polya_p=0.8, flag_consistent_p=0.7)
                 sc["reads"].append(r)
+    # the same locus on another chromosome, same coordinates, opposite strand (threads 1: one process sees both)
+    if src.bool(0.35):
+        cand = [g for g in sc["genes"] if not g["id"].endswith("as") and g.get("canon") == "canon"]
+        if cand:
+            S.add_mirror_strand_clone(src, sc, src.choice(cand))
     # reads without strand evidence
     for g, t in S.transcripts_of(sc):
         if src.bool(0.3) and len(t["exons"]) > 1:
